@@ -313,4 +313,4 @@ def unchanged_means_equal_up_to_rounding_only(ctx):
         if not ok_:
             bad = r
     ctx.check(bad is None, 'and_._same', 'True only for == or agreement to within rounding (rel <= 1e-12, tol 0)',
-              'and_ takes two vectors for "the same" under %s: a success claimed on that basis can be a point a member still changes by more than rounding' % (unparse(bad.value)[:70] if bad is not None else ''), h, bad or h)
+              'and_ takes two vectors for "the same" under %s: a success claimed on that basis can be a point a member still changes by more than rounding' % (unparse(bad.value)[:70] if bad is not None else ''), outer, bad or h)
